@@ -104,6 +104,9 @@ def spec_apply(m, op, k, v, k2):
         m[(t, k)] = (v, 0)
     elif kind == "remove":
         m.pop((t, k), None)
+    elif kind == "retire":
+        if (t, k) in m:
+            m[(t, k)] = (axo.TOMB, m[(t, k)][1])
     elif kind == "markSent":
         for kk in (k, k2):
             if (t, kk) in m:
@@ -137,6 +140,8 @@ def check_loads(store, pool, m):
             elif t == 1:
                 ok = all(store.isTrustedIdentity(k, pool.identity[v]) == (want is None or want[0] == v) for v in range(pool.n))
             elif t == 2:
+                if want is not None and want[0] == axo.TOMB:
+                    want = None          # a retired row: the id stays taken, the key is gone for every reader
                 got = store.containsPreKey(k)
                 ok = got == (want is not None)
                 if ok and want is not None:
@@ -152,13 +157,26 @@ def check_loads(store, pool, m):
             if not ok:
                 bad.append("%s[%d] should be %s" % (axo.TABLES[t], k, want))
     unsent = sorted(r.getId() for r in store.preKeyStore.loadUnsentPendingPreKeys())
-    want_unsent = sorted(k for (t, k), (v, f) in m.items() if t == 2 and not f)
+    want_unsent = sorted(k for (t, k), (v, f) in m.items() if t == 2 and not f and v != axo.TOMB)
     if unsent != want_unsent:
         bad.append("unsent prekeys %s should be %s" % (unsent, want_unsent))
     return bad
 
 
+def _norm(step):
+    """a retired prekey row carries the tombstone value, whatever the generator drew"""
+    if isinstance(step, str):
+        return step
+    return [step[0], step[1], axo.TOMB, step[3]] if step[0] == 5 else list(step)
+
+
 def run_case(chk, stream, case):
+    case = dict(case)
+    for key in ("steps", "pre"):
+        if key in case:
+            case[key] = [_norm(st) for st in case[key]]
+    if "op" in case:
+        case["op"] = _norm(case["op"])
     fails = []
     pool = chk.pool
     chk.n += 1
